@@ -20,7 +20,11 @@ pub enum Fate {
     Hang,
     AbortUse(String), // child died after a successful load, inside an accessor
     HangUse,
+    NotRun,           // the sweep was cut short: 6 inputs already hung / killed the child (each costs 20 s)
 }
+/// hangs and aborts seen so far in this process (all batches)
+pub static DEAD_CHILDREN: std::sync::atomic::AtomicUsize = std::sync::atomic::AtomicUsize::new(0);
+const MAX_DEAD_CHILDREN: usize = 6;
 
 /// Everything C05 lists, on a loaded sprite. Canvas area is capped so that legitimately huge
 /// canvases are not rendered.
@@ -150,7 +154,12 @@ pub fn run_batch(inputs: &[Vec<u8>], probe: bool, tag: &str) -> Vec<Fate> {
     let mut fates: Vec<Option<Fate>> = vec![None; inputs.len()];
     let mut start = 0usize;
     let exe = std::env::current_exe().unwrap();
+    let mut cut_short = false;
     while start < inputs.len() {
+        if DEAD_CHILDREN.load(std::sync::atomic::Ordering::SeqCst) >= MAX_DEAD_CHILDREN {
+            cut_short = true;
+            break;
+        }
         let mut child = Command::new(&exe)
             .args(["verif_exec::x_total::x_child", "--exact", "--nocapture", "--test-threads", "1"])
             .env("VERIF_CHILD_BATCH", &path)
@@ -229,6 +238,7 @@ pub fn run_batch(inputs: &[Vec<u8>], probe: bool, tag: &str) -> Vec<Fate> {
         }
         let why = err.lines().rev().find(|l| !l.trim().is_empty()).unwrap_or("").chars().take(160).collect::<String>();
         let desc = format!("{:?} {}", status.map(|s| s.to_string()), why);
+        DEAD_CHILDREN.fetch_add(1, std::sync::atomic::Ordering::SeqCst);
         fates[i] = Some(match (hung, loaded) {
             (true, false) => Fate::Hang,
             (true, true) => Fate::HangUse,
@@ -238,7 +248,7 @@ pub fn run_batch(inputs: &[Vec<u8>], probe: bool, tag: &str) -> Vec<Fate> {
         start = i + 1;
     }
     let _ = std::fs::remove_file(&path);
-    fates.into_iter().map(|f| f.unwrap_or(Fate::Abort("no report".into()))).collect()
+    fates.into_iter().map(|f| f.unwrap_or(if cut_short { Fate::NotRun } else { Fate::Abort("no report".into()) })).collect()
 }
 
 pub const BOUNDARY: &[u64] = &[0, 1, 2, 0x7f, 0x80, 0xfe, 0xff, 0x100, 0x7fff, 0x8000, 0xfffe, 0xffff, 0x10000, 0x7fff_ffff, 0x8000_0000, 0xffff_fffe, 0xffff_ffff];
@@ -507,6 +517,9 @@ fn process(st: &mut Stats, base_name: &str, inputs: Vec<Vec<u8>>, for_c05: bool,
     }
     let fates = run_batch(&inputs, for_c05, if for_c05 { "use" } else { "load" });
     for (i, f) in fates.iter().enumerate() {
+        if matches!(f, Fate::NotRun) {
+            continue;
+        }
         let nontrivial = if for_c05 { matches!(f, Fate::Loaded | Fate::PanicUse(_)) } else { !matches!(f, Fate::Loaded) };
         st.case(&inputs[i], nontrivial);
         match f {
